@@ -105,5 +105,18 @@ func main() {
 		}
 	}
 	ex.DefBool("coinbaseContextCheckCallsFrozen", cb)
+	ex.Comment("the argument expressions of the helper's call in DefaultChecker.ContextCheck (which height, which configuration fields)")
+	{
+		var args []string
+		ast.Inspect(exg.FuncDecl(tx, "DefaultChecker.ContextCheck"), func(x ast.Node) bool {
+			if c, ok := x.(*ast.CallExpr); ok && exg.CalleeName(tx, c) == "core/transaction.checkFrozenAddresses" {
+				for _, a := range c.Args {
+					args = append(args, exg.Src(tx, a))
+				}
+			}
+			return true
+		})
+		ex.DefStrList("frozenCallArgs", args)
+	}
 	ex.Footer("C32")
 }
